@@ -83,11 +83,11 @@ class Manager(base_manager.BaseManager):
         """Invoke an application callback."""
         callback = None
         try:
-            callback = self.callbacks[sid][id]
+            # (looked up and removed in one step: the same acknowledgement may
+            # be handled by two threads at once)
+            callback = self.callbacks[sid].pop(id)
         except KeyError:
             # if we get an unknown callback we just ignore it
             self._get_logger().warning('Unknown callback received, ignoring.')
-        else:
-            del self.callbacks[sid][id]
         if callback is not None:
             callback(*data)
